@@ -87,7 +87,7 @@ def timed(detector, a=3.0, noise=False):
     detector.pixel.array = np.full(shape, float(a) * float(detector.time))
     if noise:
         detector.pixel.array = detector.pixel.array + np.random.normal(0.0, 1.0, size=shape)
-    detector.photon.array = np.full(shape, float(detector.time))
+    detector.photon.array = np.full(shape, float(detector.time) + 1000.0 * float(detector.time_step))
     if probes.HOOK:
         probes.HOOK("model.out")
 
@@ -161,7 +161,9 @@ def build(h, with_dask, tmp):
                                      save_data_to_file=[{"detector.pixel.array": ["npy"]},
                                                         {"detector.image.array": ["npy"]}])
     times = [float(i + 1) for i in range(h["steps"])]
-    obs = Observation(parameters=params, mode=h["mode"], readout=mk.readout(times), with_dask=with_dask,
+    # (sweeps of the readout times start from a readout with a non-zero start time: it must survive the sweep)
+    ro = mk.readout(times, start_time=0.25) if "rtimes" in h else mk.readout(times)
+    obs = Observation(parameters=params, mode=h["mode"], readout=ro, with_dask=with_dask,
                       pipeline_seed=h["seed"], outputs=outputs, **kw)
     return obs, det, pipe
 
